@@ -122,3 +122,32 @@ PROPS["C03"] = {"jobs": [esc_job("C03")], "bounds": ESC_BOUNDS, "stubs": CHAIN_S
 PROPS["C01"] = {"jobs": [esc_job("C01")] + PROPS["C02"]["jobs"], "bounds": ESC_BOUNDS, "stubs": CHAIN_STUBS,
     "outside_claim": ["x/bank internals, fees, IBC", "handler level (market/deployment) is covered by the chain-step harnesses when registered"],
     "assumptions": PROPS["C03"]["assumptions"]}
+
+CHAIN_H = ["CreateDeployment", "DepositDeployment", "UpdateDeployment", "CloseDeployment", "CloseGroup", "PauseGroup", "StartGroup",
+           "CreateBid", "CloseBid", "CreateLease", "WithdrawLease", "CloseLease"]
+def chain_job(owner):
+    return {
+        "pkg": "zzverif/chain", "pkgname": "zzchain",
+        "files": ["harness/CHAIN/chain.go", "harness/CHAIN/inv.go", "harness/CHAIN/step.go"],
+        "extra_overlays": {"x/market/keeper/zz_verif_export.go": "harness/CHAIN/export_market.go"},
+        "shims": ["shim.go.tmpl", "shim_chain.go.tmpl"],
+        "quick": ["Harness_CHAIN_%s_12" % h for h in CHAIN_H],
+        "thorough": ["Harness_CHAIN_%s_12" % h for h in CHAIN_H] + ["Harness_CHAIN_%s_21" % h for h in CHAIN_H],
+        "opts": {"timeout": 20000, "witness": 3},
+        "owner": owner,
+        "reach": {"Harness_CHAIN_%s_12" % h: ["accepted", "rejected"] for h in CHAIN_H},
+    }
+CHAIN_BOUNDS = {
+    "quick": "handler level, one message from an arbitrary INV pre-state: focus deployment (tenant,1) absent/present with one group, 1 order slot x 2 provider slots (each: none / bid / bid+lease), all record states symbolic, all balances/prices/deposits unbounded integers in [0,2^100), heights in [1,2^40) with arbitrary gaps incl. 0; bystander deployment (tenant,12) with one order/bid/lease slot; all 12 deployment+market handlers with symbolic message fields; real keepers and escrow hooks wired as app.setAkashKeepers",
+    "thorough": "adds the 2-order-slots x 1-provider universe for all 12 handlers",
+}
+CHAIN_ASSUME = ["INV (DESIGN §4, Appendix A) is assumed of the pre-state and asserted of the post-state: induction over histories of any length inside the identifier universe",
+    "a failing or panicking handler leaves the state unchanged (SDK transaction semantics); ValidateBasic runs before the handler",
+    "pre-state records are written through the keepers' own save/update functions and keys"]
+for pid in ("C04", "C05"):
+    PROPS[pid] = {"jobs": [chain_job(pid)], "bounds": CHAIN_BOUNDS, "stubs": CHAIN_STUBS + ["params subspace -> value kept in the context model", "telemetry -> no-op"],
+        "outside_claim": ["more than one group per deployment, more than 2 order/provider slots", "provider deletion (unimplemented in the repo)", "Begin/EndBlock (empty for the akash modules)"],
+        "assumptions": CHAIN_ASSUME}
+PROPS["C05"]["jobs"] = [chain_job("C05"), esc_job("C05")]
+PROPS["C01"]["jobs"] = PROPS["C01"]["jobs"] + [chain_job("C01")]
+PROPS["C03"]["jobs"] = PROPS["C03"]["jobs"] + [chain_job("C03")]
